@@ -450,4 +450,3 @@ func OrderIssues(v cadence.Value) map[string]bool {
 	val(v)
 	return out
 }
-
